@@ -97,14 +97,14 @@ RULE = ("C13 generator: zeros / equal / one divides the other / common 2^k with 
         "spanning digits / co-prime / Fibonacci / all signs | non-trivial: both operands >= 2 in magnitude and distinct")
 
 # ---- in-Coq cross-check of the extraction -------------------------------------------------
-COQ_IMPORTS = "Base X86 AddSub PgrLoop Pow Gcd Div Extracted"
+COQ_IMPORTS = "Base X86 AddSub PgrLoop Pow Gcd Div Mul Extracted"
 
 def coq_term(case, model):
     toks = case.split(" ")
     op, a = toks[0], toks[1:]
     if len(case) > 160 or len(model) > 200:
         return None
-    big = "spec_bmul (Div.udivrem Extracted.div) addsub"
+    big = "(Mul.umul Extracted.mul) (Div.udivrem Extracted.div) addsub"
     if op == "u.gcd":
         return "ugcd addsub pgr_gcd %s %s" % (coq_list(a[0]), coq_list(a[1])), coq_result(model)
     if op == "u.lcm":
